@@ -591,12 +591,21 @@ def fill_guards(m, k, pl, r):
             sig = sigs.get((i["name"], mt["name"]))
             val = "true"
             if sig is not None:
-                idents = set()
+                idents, inner, atoms = set(), set(), set()
                 for p in sig["params"] + sig["results"]:
-                    idents |= bare_idents(p["t"], pl == "in")
-                cap = [v["name"] for v in mt["vars"] if v["name"] in idents]
-                if cap:
+                    b = bare_idents(p["t"], pl == "in")
+                    idents |= b
+                    if is_atomic(p["t"]):
+                        atoms |= b
+                    else:
+                        inner |= b
+                if any(v["name"] in idents for v in mt["vars"]):
                     val = "false"
+                # the known-finding class proper: the identifier occurs ONLY inside composite
+                # types (for a type that is a bare identifier the code guarantees the renaming,
+                # C14_names, so a capture there is a violation, not a known finding)
+                cap = [v["name"] for v in mt["vars"] if v["name"] in inner and v["name"] not in atoms]
+                if cap:
                     r["captured"].append((i["name"], mt["name"], cap))
             if g < len(gpos):
                 raw[gpos[g]] = ("guard", val)
@@ -741,10 +750,15 @@ def module_stats(m, hist):
 
 
 def check(ctx, only=None):
+    phase = {}
+    t0 = time.time()
     gate = proof_gate(ctx)
+    phase["proof_gate (incl. waiting for the shared Coq build lock)"] = round(time.time() - t0, 1)
+    t0 = time.time()
     if not ctx.build_tree(drivers=["gotype"]):
         ctx.write_evidence(gate, 0, 0, "build failed", [])
         return
+    phase["build mockery + gotype"] = round(time.time() - t0, 1)
     known = {k["id"]: k for k in load_known("C14")}
     hist, samples = {}, []
     evaluations = 0
@@ -768,10 +782,14 @@ def check(ctx, only=None):
         mark(m)
         module_stats(m, hist)
         root = ctx.scratch / ("mod%d" % j)
+        t0 = time.time()
         out = process(ctx, m, root)
+        phase["mockery probes + go type checker"] = round(phase.get("mockery probes + go type checker", 0) + time.time() - t0, 1)
         keys = sorted(out["cases"])
         terms = [case_term(m, k, pl, out["cases"][(k, pl)]["obs"]) for k, pl in keys]
+        t0 = time.time()
         bad, errs = coq_mismatches(ctx, COQ_MODS, terms, shard=8)
+        phase["model evaluation in Coq"] = round(phase.get("model evaluation in Coq", 0) + time.time() - t0, 1)
         evaluations += len(keys) + sum(1 for k, s in enumerate(m["srcs"]) for pl in PLACEMENTS if selected(s, pl))
         for (k, pl) in keys:
             r = out["cases"][(k, pl)]
@@ -797,7 +815,8 @@ def check(ctx, only=None):
             k = byname[name]
             r = out["cases"].get((k, pl), {})
             text = "\n".join(msgs)
-            if r.get("captured") and re.search(KNOWN_SYMPTOMS["C14-name-captures-inner-type"], text) and "C14-name-captures-inner-type" in known:
+            if (r.get("captured") and "C14-name-captures-inner-type" in known
+                    and all(re.search(known["C14-name-captures-inner-type"]["symptom"], x) and any(c in x for _, _, cs in r["captured"] for c in cs) for x in msgs)):
                 ctx.known("C14-name-captures-inner-type: %s/%s %s: %s" % (name, pl, r["captured"][:2], msgs[0][:120]))
                 continue
             oracle_failed = True
@@ -871,7 +890,7 @@ def check(ctx, only=None):
                        "one evaluation = one output file's complete data-model dump compared with the model (every accessor of every method/parameter) or one package x placement type-checked by the re-emission oracle; non-trivial = the file has an aliased import or a name changed by collision resolution; distinct by hash of the dump",
                        samples,
                        extra={"input_histogram": hist, "model_mismatches": len(corr_bad), "oracle_failed": oracle_failed,
-                              "mockery_runs": 2 * len(modules) + (4 if only is None else 0)},
+                              "mockery_runs": 2 * len(modules) + (4 if only is None else 0), "phase_seconds": phase},
                        assumptions=["go/types method-set completion and method order are recomputed by the harness (exported names by name, then unexported) and are inputs of the model",
                                     "go/parser (harness/go/gotype) is trusted to read Go type expressions; identifier visibility (exported/unexported across packages) is not modelled: interfaces that cannot be named from another package are rendered in-package only",
                                     "template_funcs.Exported is a parameter of the model (property C16); the harness instantiates it for ASCII names",
